@@ -16,6 +16,10 @@ def table_data(lst):
     return dict((n, lst._table[n]._data.copy()) for n in lst._tablenames)
 
 
+def _eq(a, b):
+    return a == b or (a != a and b != b)
+
+
 def key_text_ok(rowname, line, start):
     """The key printed on the line is the row's name (independent of key_from_line: plain text search)."""
     mulgrids = core.repo_modules("mulgrids")
@@ -49,6 +53,21 @@ def check_file(rep, f, rng, quick, layout_recs, rec):
         for i in indices:
             used[i] = rec.read_at(lst, i)
             orig[i] = table_data(lst)
+            # the three ways of addressing a cell agree at every result time, for rows already looked at at an earlier time too
+            for t in lst._tablenames:
+                tab = lst._table[t]
+                for r in sorted(set([0, tab.num_rows - 1, tab.num_rows // 2])):
+                    if tab._row.get(tab.row_name[r]) != r:
+                        continue
+                    try:
+                        byi, byn = tab[r], tab[tab.row_name[r]]
+                        bad_ = next((cn for k_, cn in enumerate(tab.column_name)
+                                     if not (_eq(byi[cn], orig[i][t][r, k_]) and _eq(byn[cn], orig[i][t][r, k_]) and _eq(tab[cn][r], orig[i][t][r, k_]))), None)
+                    except Exception as ex:
+                        bad_ = repr(ex)
+                    if bad_ is not None:
+                        rep.violation("%s:%s:addressing-over-time" % (sim, t), "P4_addressing_agrees",
+                                      {"file": fname, "index": i, "table": t, "row": r, "column": bad_})
         starts = dict((t, lst._table[t].row_format['values'][0]) for t in lst._tablenames)
         paths, tokmap = watermark.build_copies(f, used, starts, work, core.seed() + 5)
         copies = {}
